@@ -1282,8 +1282,12 @@ def invariant_scenarios(include_tree=False, sample_c05=40, seed=0):
     import random
     rng = random.Random('inv/%s' % seed)
     c05 = scenarios_c05()
-    out = scenarios_delete() + scenarios_c07() + scenarios_c06() + rng.sample(
-        c05, min(sample_c05, len(c05)))
+    # writes that carry no generation (rename, re-parent) racing guarded
+    # writes are always in; the rest of the C05 catalogue is sampled
+    always = [x for x in c05 if x[0].startswith(('rename|', 'parent to C|'))]
+    rest = [x for x in c05 if x not in always]
+    out = scenarios_delete() + scenarios_c07() + scenarios_c06() + always + \
+        rng.sample(rest, min(sample_c05, len(rest)))
     if include_tree:
         out = scenarios_tree() + out
     return out
